@@ -410,6 +410,7 @@ def main(argv):
 
 def report(prop, tier, seed, cfg, results, kres, known, t0, selftest=()):
     violations, undecided, known_hits = [], [], []
+    known_finding_obligations = 0
     obligations = discharged = 0
     per_fn, items, rewrites, trusted, samples, bounded = [], [], [], [], [], []
     guards = {"reach_expected_fail": 0, "reach_failed_as_required": 0, "exit_expected_fail": 0, "exit_failed_as_required": 0}
@@ -436,6 +437,7 @@ def report(prop, tier, seed, cfg, results, kres, known, t0, selftest=()):
             for f in r["functions"]:
                 per_fn.append(dict(f, unit=unit, backend="verus/z3"))
             if r["status"] == "proof-failed":
+                n_before = (len(violations), len(undecided), len(known_hits))
                 for e in r["errors"]:
                     if RLIMIT.search(e["msg"]) and not PROOF_FAIL.search(e["msg"]):
                         undecided.append("%s: rlimit in %s" % (unit, e["where"]))
@@ -472,6 +474,12 @@ def report(prop, tier, seed, cfg, results, kres, known, t0, selftest=()):
                         continue
                     path = write_replay(prop, unit, oid, e, r)
                     violations.append((oid, path, "no-failing-input-found", e))
+                if (len(violations), len(undecided)) == n_before[:2] and len(known_hits) > n_before[2]:
+                    # every failing clause of this run is a LISTED known finding: the functions concerned are accounted as
+                    # discharged-except-for-the-listed-clause; the listed clauses are reported on their own (KNOWN-FINDING lines,
+                    # coverage.known_findings_reported / known_finding_obligations) and are NOT part of the obligations count
+                    discharged += r["failed"]
+                    known_finding_obligations += len(known_hits) - n_before[2]
         elif variant.startswith("seed:"):
             main = [m for m in results if m["unit"] == unit and m["variant"] == "main"]
             if main and main[0]["status"] != r["status"]:
@@ -558,9 +566,10 @@ def report(prop, tier, seed, cfg, results, kres, known, t0, selftest=()):
             "vacuity_guards": guards,
             "samples": samples or [{"note": "no obligations ran"}],
             "known_findings_reported": [k["_text"] for _, k in known_hits],
+            "known_finding_obligations": known_finding_obligations,
             "seeded_change_selftest": list(selftest),
             "undecided": undecided,
-            "explanation": "obligations = Verus verification conditions per function/lemma/spec-termination (one per item reported by Verus) + complete Kani harnesses; bounded Kani stand-ins are listed under `bounded` and never counted.",
+            "explanation": "obligations = Verus verification conditions per function/lemma/spec-termination (one per item reported by Verus) + complete Kani harnesses; bounded Kani stand-ins are listed under `bounded` and never counted. A contract clause listed in known_findings.txt as `finding:` FAILS by design: it is reported as KNOWN-FINDING, counted in known_finding_obligations, and is not part of obligations/discharged (the function carrying it is counted as discharged only if every other clause of it verified).",
         },
         "assumptions": cfg.get("assumptions", []) + sorted(set(trusted)),
         "wall_s": round(wall, 2),
